@@ -177,7 +177,7 @@ def soup(r):
         elif c < 0.88:
             lines.append(f'{ind}' + r.choice(['jump ', 'jumpif (va > 1) ']) + r.choice(names))
         elif c < 0.90:
-            lines.append(f"{ind}include " + r.choice(["'a.bare'", '<b.bare>']))
+            lines.append(f"{ind}include " + r.choice(["'a.bare'", '<b.bare>', "''", '<>', "'sub dir/x y.bare'"]))
         elif stack:
             # close: mostly the right closer, sometimes a wrong one
             k = stack.pop() if r.random() < 0.93 else r.choice(['if', 'while', 'for', 'function'])
